@@ -43,6 +43,19 @@ def scenario(rng, i):
                 if rng.random() < 0.35 and crit < 1:
                     # exactly ON the threshold, computed from the worm's own angle objects: the strict condition says "not self-locking"
                     e['rel'].update(f=crit, f_is_threshold=True)
+    if m == 6 and rng.random() < 0.5:
+        # a chain WITHOUT self-locking standing still with the motor off and no load; then another Solver object takes over and
+        # a load starts acting: the chain is driven by it (nothing may hold it)
+        spec['load'].update(A=0.0, B=0.0, C=0.0, S=0.0, W=0.0, step_t=None, step_A=0.0)
+        spec['load'].pop('P', None)
+        spec['ic'] = dict(spec['ic'], pos=GEN.Q('AngularPosition', 0.0, 'rad'), speed=GEN.Q('AngularSpeed', 0.0, 'rad/s'), pwm=0)
+        dt = spec['schedule'][0]['dt']
+        l2 = dict(spec['load'], A=GEN.sig(0.5 * spec['_ref']['T_out'], 4))
+        spec['schedule'] = [{'op': 'run', 'dt': dt, 'T': GEN.mulq(dt, rng.randint(4, 12))}, {'op': 'swapsolver'}, {'op': 'setload', 'load': l2},
+                            {'op': 'run', 'dt': dt, 'T': GEN.mulq(dt, rng.randint(6, 20))}]
+        spec['manual_pwm'] = True
+        spec['probe'] = True
+        return spec
     if m == 3:
         # no controller at all: the duty cycle is assigned by hand between consecutive runs (1 -> 0 -> -1 -> ...)
         dt = spec['schedule'][0]['dt']
